@@ -155,6 +155,31 @@ func runC06(c *run.Ctx) {
 				}
 			}
 		}
+		// a member failing below element k of an accessor list together with the accessor failing at k+1
+		if kind == "any" {
+			for _, cl := range exp0.Calls {
+				if len(cl.Path) == 0 {
+					continue
+				}
+				n := ec.G.Nodes[cl.Key.Node]
+				l, isL := n.F[cl.Key.Field].(model.VList)
+				if !isL || len(l) < 2 {
+					continue
+				}
+				k := r.Intn(len(l) - 1)
+				en, isNode := l[k].(*model.Node)
+				if !isNode || en == nil {
+					continue
+				}
+				// a call made on element k below this list
+				for _, c2 := range exp0.Calls {
+					if c2.Key.Node == en.ID && len(c2.Path) == len(cl.Path)+2 && pathKey(c2.Path[:len(cl.Path)]) == pathKey(cl.Path) {
+						check("nth+member", model.FaultPlan{cl.Key: model.Fault{Kind: "nth", N: k + 1}, c2.Key: model.Fault{Kind: "error"}}, ec.G, h, true)
+						break
+					}
+				}
+			}
+		}
 		// pairs and triples
 		if len(clean.Calls) >= 3 {
 			for m := 0; m < c.N(2, 6); m++ {
